@@ -25,6 +25,8 @@ def alphabet():
     A.append(imp.mkfeat(s=20, e=30, source="s2", attrs=[["ID", ["a"]], ["Note", ["y", "z"]]]))
     A.append(imp.mkfeat(s=1, e=10, strand="-", attrs=[["ID", ["a_1"]], ["Name", ["n3"]]]))
     A.append(imp.mkfeat(s=5, e=6, type_="exon", attrs=[["Parent", ["a"]]]))
+    # one value listed twice inside one attribute (Alias=q,q), under a key the others do not have: merging leaves no repeats
+    A.append(imp.mkfeat(s=1, e=10, attrs=[["ID", ["a"]], ["Alias", ["q", "q"]]]))
     return A
 
 
